@@ -82,11 +82,7 @@ theorem limited_rect (rows : List (List α)) (size : Option Int) (w : Nat)
 theorem toArrow_eq (names : List String) (rows : List (List α)) (size : Option Int) :
     toArrow names rows size =
       if (limited rows size).length = 0 then { names := names, cols := List.replicate names.length [] }
-      else { names := names, cols := transposeN names.length (limited rows size) } := by
-  unfold toArrow limited head
-  cases size with
-  | none => rfl
-  | some k => cases k <;> rfl
+      else { names := names, cols := transposeN names.length (limited rows size) } := rfl
 
 theorem toArrow_names (names : List String) (rows : List (List α)) (size : Option Int) :
     (toArrow names rows size).names = names := by
